@@ -5,7 +5,7 @@ HOOKS = dict(
     enable="cargo kani sets --cfg kani; hooks are `#[cfg(kani)] #[path = \"/verif/kani/in/<x>.rs\"] mod verif_harness;` "
            "lines (add-only). Verus units need no hook: function text is extracted from /repo on every run.",
     baseline_off_cmd="cd /repo && cargo test --workspace --no-fail-fast --offline",
-    source_commits=[],
+    source_commits=["verif hook: cfg(kani) harness module for decode/adaptive_le.rs"],
     add_only=True,
 )
 
@@ -24,6 +24,12 @@ CHECKS = {
         text="Complete proof (not bounded) that the three real header encoders emit exactly the PS3.5 7.1.2 layout and "
              "reject over-long 16-bit lengths, for every VR, tag and length; the spec table is written from the standard.",
         note="Trusted: Kani/CBMC, std `Write for &mut [u8]`. Backtrace capture stubbed. Error values are forgotten, not dropped.",
+    ),
+    "C08": dict(
+        technique="Kani/CBMC contract harnesses inside the real module, loop-free over all 12-byte inputs and all dictionary answers",
+        text="Complete proof that the adaptive decoder's first header equals the explicit (resp. implicit) decoder's result under "
+             "the stated unambiguity condition and that a locked decoder equals that decoder forever after.",
+        note="Dictionary represented by its contract (symbolic answer); std dictionary content not verified here. Backtrace stubbed.",
     ),
     "C26": dict(
         technique="Verus contracts (requires/ensures + representation invariant) on the extracted text of the synchronous P-DATA writer",
@@ -55,7 +61,6 @@ NOT_APPLICABLE = {
     "C04": "check not built yet in this session (planned in DESIGN.md section 7); not claimed until its check runs",
     "C05": "check not built yet in this session (planned in DESIGN.md section 7); not claimed until its check runs",
     "C07": "check not built yet in this session (planned in DESIGN.md section 7); not claimed until its check runs",
-    "C08": "check not built yet in this session (planned in DESIGN.md section 7); not claimed until its check runs",
     "C09": "check not built yet in this session (planned in DESIGN.md section 7); not claimed until its check runs",
     "C11": "check not built yet in this session (planned in DESIGN.md section 7); not claimed until its check runs",
     "C12": "check not built yet in this session (planned in DESIGN.md section 7); not claimed until its check runs",
